@@ -380,6 +380,6 @@ func init() {
 		c.Run.Explainf("C13 (call-record field names follow parameter names predictably): (a) user-written names are kept — on the path where the go/types name is neither \"\" nor \"_\" the name proposer never consults the type-derived namer and only appends to the name (go/cfg with the branch assumption), and the reserved-name table renames nothing beyond {identifiers the generated body uses, keywords, predeclared type names}; (b) the record field is Exported(parameter name) at every spelling (K-RECORD/literal on all skeletons: key, struct field and element type agree); (c) Exported's decision table is extracted by enumerating its paths on a symbolic non-empty name (abstract interpretation of its current source): it decides only on strings.ToUpper(s) == <initialism>, returns that initialism, and otherwise ToUpper(s[0:1])+s[1:]; \"\" maps to \"\"; (d) the initialism table is upper case throughout and equals golint's commonInitialisms, read from golang.org/x/lint in the module cache; (e) the type-derived default names equal the reference table (one abstract go/types value per type constructor is pushed through the namer's source). NOT decided: the concrete string for every name (that is evaluating the function) and behaviour under collisions.")
 		exportedTable(c)
 		namesTables(c, freeNameList(c, "G-RESERVED"), true, true)
-		c.RunSkeletons(SkelOpts{Rules: []string{"K-RECORD/literal", "G-SCOPE/fresh", "G-MOCK/infrastructure-imports-last"}, Env: smallEnv})
+		c.RunSkeletons(SkelOpts{Rules: []string{"K-RECORD/literal", "G-SCOPE/fresh", "G-MOCK/infrastructure-imports-last", "G-DATA/name-final"}, Env: smallEnv})
 	})
 }
